@@ -733,3 +733,28 @@ Section JsonCfg.
       rewrite D2 in Q1. inversion Q1. subst me'. exact Q2.
   Qed.
 End JsonCfg.
+
+(* ---------- middlewares ---------- *)
+Lemma acquire_no_mw i b : acquire_m [] i b = b.
+Proof. destruct b; reflexivity. Qed.
+
+(* header/date adds one value to its (canonical) header name, after the values the request already
+   has under that name, and touches nothing else of the request *)
+Theorem mw_date_adds i name r :
+  exists r', mw_update i (MwDate name) r = Some r' /\
+    mr_method r' = mr_method r /\ mr_url r' = mr_url r /\ mr_host r' = mr_host r /\
+    mr_body r' = mr_body r /\ mr_tag r' = mr_tag r /\
+    forall k, mget k (mr_headers r') =
+      let nm := canon_key (if is_nil name then DATE else name) in
+      if beq k nm
+      then Some (match mget nm (mr_headers r) with Some vs => vs ++ [DATE_STAMP] | None => [DATE_STAMP] end)
+      else mget k (mr_headers r).
+Proof.
+  eexists. split; [reflexivity|]. cbn [mr_method mr_url mr_host mr_body mr_tag mr_headers].
+  repeat split; try reflexivity. intros k. apply mget_madd.
+Qed.
+
+(* a refusing middleware makes exactly its n-th request unusable *)
+Theorem mw_fail_at i n r :
+  acquire_m [MwFailAt n] i (MBOk r) = if N.eqb i n then MBInvalid else MBOk r.
+Proof. cbn [acquire_m mws_update mw_update]. destruct (N.eqb i n); reflexivity. Qed.
